@@ -532,6 +532,15 @@ func (w *World) runTask(sh *Shared, t Task) string {
 	panic("unknown stage " + t.Stage)
 }
 
+func hasForm(p lib.C36Program, form string) bool {
+	for _, f := range p.Forms {
+		if f == form {
+			return true
+		}
+	}
+	return false
+}
+
 func (w *World) allTasks() []Task {
 	var ts []Task
 	for i := range w.lexInputs {
@@ -621,7 +630,7 @@ func vmProbe(w *World) {
 	strProg := lib.C36Program{ID: "strconst", Kind: "script", Src: `
 access(all) fun main(n: Int): Int {
  if n == 0 { return 0 }
- return "h\u{e9}llo w\u{f6}rld, shared constant".length
+ return "h\u{e9}llo w\u{f6}rld, shared constant".length + "another shared constant".slice(from: n, upTo: 9).length
 }`}
 	runAll("string-constant-length", []lib.C36Program{strProg}, 4, false,
 		func(p lib.C36Program) { w.execTask(sh, p, true, cadence.NewInt(0)) }, cadence.NewInt(1))
@@ -798,6 +807,11 @@ func main() {
 					item = hot[r.Intn(len(hot))] % n
 				}
 				if st == "execvm" && !vmRound {
+					st = "exec"
+				}
+				if st == "execvm" && hasForm(w.programs[item], "string") {
+					// grapheme operations (`.slice`, first `.length`) on a string LITERAL mutate iteration state kept
+					// inside the constant shared by all VMs running the compiled program (known finding, vmprobe)
 					st = "exec"
 				}
 				if st == "execvm" && w.programs[item].HasEnum {
